@@ -630,6 +630,7 @@ def run(c, prog):
     rule_float(c, prog)
     rule_twopass(c, prog)
     rule_name(c, prog)
+    _C15.rule_one(core.Alias(c, "C02"), prog, _dbm.Database())     # two elements for one property: the value under the canonical key is replaced by the alias's
     from . import C06 as _C06
     _C06.rule_name(core.Alias(c, "C02"), prog)     # names read back: not when the element is dropped as an unknown property
     from . import C02_type
